@@ -609,6 +609,10 @@ func (e *Env) evalCall(c *ast.CallExpr) Val {
 			return boolVal("true")
 		}
 		return boolVal("false")
+	case "chancap":
+		// chancap(ch): the buffer capacity the channel was made with
+		v := e.eval(arg(0))
+		return intVal(e.st.loadIn(e.cur, "Int", extendGhost(v.L[0], 1)))
 	case "closed":
 		v := e.eval(arg(0))
 		return boolVal(e.st.loadIn(e.cur, "Bool", extendGhost(v.L[0], 0)))
